@@ -574,7 +574,14 @@ func check(args []string) int {
 	if spec.Race {
 		rb := filepath.Join(bi.Dir, "harness.race")
 		logBase := filepath.Join(bi.Dir, fmt.Sprintf("race-%d", os.Getpid()))
-		rres, rprobs := runWorkers(rb, prop+"race", tier, seed, 4, deadline, 1, hard, []string{"GORACE=halt_on_error=0 exitcode=0 log_path=" + logBase, "GOMAXPROCS=8"})
+		// the free-running pass has no scheduler that could see a deadlock between real goroutines
+		// (the controlled exploration reports those): a pass that does not finish is stopped by the
+		// watchdog and recorded as not exhaustive, never as a verdict.
+		raceHard := 5 * time.Minute
+		if tier == "thorough" {
+			raceHard = 20 * time.Minute
+		}
+		rres, rprobs := runWorkers(rb, prop+"race", tier, seed, 4, deadline, 1, raceHard, []string{"GORACE=halt_on_error=0 exitcode=0 log_path=" + logBase, "GOMAXPROCS=8"})
 		races := 0
 		var firstReport string
 		logs, _ := filepath.Glob(logBase + ".*")
@@ -594,6 +601,10 @@ func check(args []string) int {
 		for i, r := range rres {
 			if r == nil {
 				plainNote += fmt.Sprintf("race shard %d: %s; ", i, firstLine(rprobs[i]))
+				if rprobs[i] == "watchdog" {
+					agg.exhaustive = false
+					agg.caps = append(agg.caps, fmt.Sprintf("race pass shard %d did not finish and was stopped by the watchdog", i))
+				}
 				if rprobs[i] != "watchdog" {
 					agg.viol = append(agg.viol, proto.Violation{Property: prop, Clause: "concurrent operations do not crash", Kind: "process-death",
 						Sig: "race-pass-crash", Input: map[string]any{"shard": i, "build": "race"}, Observed: rprobs[i], Build: "race"})
